@@ -190,7 +190,6 @@ def curveFacts : List (String × Bool) := [
   ("min_curve COEFF_A = -1", fqLit min_curve_constants.top.COEFF_A == q - 1),
   ("min_curve COEFF_D = 3021", fqLit min_curve_constants.top.COEFF_D == 3021),
   ("min_curve COEFF_K = 2d", fqLit min_curve_constants.top.COEFF_K == 6042),
-  ("min_curve elligator A, D", fqLit min_curve_element.Element.elligator_map.A == q - 1 && fqLit min_curve_element.Element.elligator_map.D == 3021),
   ("ZETA is a quadratic non-residue", powMod zeta ((q - 1) / 2) q == q - 1),
   ("min_curve ZETA = ark_curve ZETA", fqLit min_curve_constants.top.ZETA == zeta),
   ("min_curve ZETA_TO_TRACE = ZETA^t", fqLit min_curve_constants.top.ZETA_TO_TRACE == powMod zeta fqC.t q),
